@@ -8,7 +8,7 @@ from kvstatic import grammar, oracle
 from kvstatic.mvlogic import Logic
 from kvstatic.tt import LaneViolation
 from kvstatic.paths import cz
-from kvstatic.astutil import find_all, attr_chain, is_name, call_name, body_no_doc, target_names, walk_no_nested_funcs, renamed
+from kvstatic.astutil import find_all, attr_chain, is_name, call_name, body_no_doc, target_names, walk_no_nested_funcs, renamed, parents
 
 CH = '0X-1PRFN'
 
@@ -24,6 +24,7 @@ def run(rep: Report, repo: Repo):
     rep.assumptions = ['NOT DECIDED: placement of each character for arbitrary chains and pattern sets; launch/capture call sequencing; signal-group order']
     mod = repo.mod('stil')
     interface_order(rep, repo, mod)
+    extraction(rep, mod)
     twins(rep, mod)
     chain_orientation(rep, mod, Logic(repo))
     transition_table(rep, repo)
@@ -85,6 +86,72 @@ def interface_order(rep, repo, mod):
         rep.ob('C18.order', f'{q}: array has len(interface) rows, initially unassigned', ok)
         if not ok:
             rep.violate('C18.order', mod, g, q, f'{q}: the result must have one row per interface (s_nodes) position and one column per pattern, initially UNASSIGNED', node=g)
+
+
+def extraction(rep, mod):
+    rep.rule('C18.extract', 'pattern extraction: each load_unload call closes the pattern in progress as ScanPattern(load, launch, capture, unload) and every field is re-created '
+                            'afterwards (no pattern inherits a call of the previous one); *_launch / *_capture calls fill launch / capture; line breaks removed, N read as -')
+    f = mod.func('StilFile.__init__')
+    nt = [st for st in mod.tree.body if isinstance(st, ast.Assign) and is_name(st.targets[0], 'ScanPattern')]
+    ok = len(nt) == 1 and cz(nt[0].value) == "namedtuple('ScanPattern',['load','launch','capture','unload'])"
+    rep.ob('C18.extract', 'ScanPattern fields (load, launch, capture, unload)', ok)
+    if not ok:
+        rep.violate('C18.extract', mod, '<module>', nt[0] if nt else 'ScanPattern', 'ScanPattern must be the record (load, launch, capture, unload)', node=nt[0] if nt else None)
+    loops = [l for l in find_all(f, ast.For) if cz(l.iter) == 'self.calls']
+    if len(loops) != 1:
+        raise ModelError('StilFile.__init__: loop over self.calls not found')
+    lp = loops[0]
+    cv = lp.target.id
+    arms = {cz(st.test): st for st in lp.body if isinstance(st, ast.If)}
+    lu = arms.get(f"{cv}.name=='load_unload'")
+    if lu is None:
+        rep.violate('C18.extract', mod, f, 'load_unload arm', "StilFile.__init__: no arm for call.name == 'load_unload'", node=lp)
+        return
+    apps = [c for c in find_all(lu, ast.Call) if call_name(c) == 'self.patterns.append' and c.args and isinstance(c.args[0], ast.Call) and call_name(c.args[0]) == 'ScanPattern']
+    ok = len(apps) == 1 and [cz(a) for a in apps[0].args[0].args] == ['sload', 'launch', 'capture', 'unload']
+    rep.ob('C18.extract', 'append ScanPattern(sload, launch, capture, unload)', ok)
+    if not ok:
+        rep.violate('C18.extract', mod, f, apps[0] if apps else 'self.patterns.append', 'a load_unload call must append ScanPattern(sload, launch, capture, unload) - in the field order (load, launch, capture, unload)', node=lu)
+        return
+    app_stmt = apps[0]
+    while not isinstance(app_stmt, ast.stmt):
+        app_stmt = app_stmt._parent
+    guard = [p for p in parents(app_stmt) if isinstance(p, ast.If) and p is not lu]
+    ok = len(guard) == 1 and cz(guard[0].test) == 'len(capture)>0'
+    rep.ob('C18.extract', 'a pattern is closed only if a capture happened', ok)
+    if not ok:
+        rep.violate('C18.extract', mod, f, guard[0].test if guard else app_stmt, 'the pattern in progress must be appended exactly when a capture call was seen since the last load (len(capture) > 0)', node=lu)
+    # every field re-created after the append (or fresh at the top of the arm, before the append)
+    order = [st for st in ast.walk(lu) if isinstance(st, ast.stmt)]
+    order.sort(key=lambda st: (st.lineno, st.col_offset))
+    def fresh_sites(name):
+        return [st for st in order if isinstance(st, ast.Assign) and is_name(st.targets[0], name) and cz(st.value) in ('{}', 'dict()')]
+    for name in ('sload', 'launch', 'capture', 'unload'):
+        sites = fresh_sites(name)
+        after = [st for st in sites if (st.lineno, st.col_offset) > (app_stmt.lineno, app_stmt.col_offset)]
+        before_top = [st for st in sites if st in lu.body and (st.lineno, st.col_offset) < (app_stmt.lineno, app_stmt.col_offset)]
+        # a reset after the append must not be deeper nested than the append itself under a different condition
+        def uncond(st):
+            ps = [p for p in parents(st) if isinstance(p, (ast.If, ast.For, ast.While)) and p is not lu and p is not lp]
+            return all(p in guard for p in ps)
+        ok = any(uncond(st) for st in after) or bool(before_top)
+        rep.ob('C18.extract', f'field {name} is re-created for the next pattern', ok, sample={'rule': 'C18.extract', 'field': name, 'reset sites': [st.lineno for st in sites]})
+        if not ok:
+            rep.violate('C18.extract', mod, f, f'{name} after self.patterns.append(...)', f'after a pattern is appended, `{name}` is not re-created ({name} = {{}}): the next pattern inherits the previous pattern\'s {name} call '
+                        f'(e.g. a capture-only pattern after a launch+capture pattern re-uses its launch)', node=app_stmt)
+    for suffix, var in (('_launch', 'launch'), ('_capture', 'capture')):
+        st = arms.get(f"{cv}.name.endswith('{suffix}')")
+        ok = st is not None and len(st.body) == 1 and cz(st.body[0]) in (
+            f"{var}=dict(((k,v.replace('\\n','').replace('N','-'))for(k,v)in{cv}.parameters.items()))", f"{var}=dict(((k,v.replace('\\n','').replace('N','-'))fork,vin{cv}.parameters.items()))")
+        rep.ob('C18.extract', f'*{suffix} call -> {var}', ok)
+        if not ok:
+            rep.violate('C18.extract', mod, f, st.body[0] if st is not None and st.body else f'{suffix} arm', f"a call whose name ends with '{suffix}' must set `{var}` to its parameters with line breaks removed and N read as -", node=st if st is not None else lp)
+    for port, var, ports in (('so_port', 'unload', 'self.so_ports'), ('si_port', 'sload', 'self.si_ports')):
+        w = f"for{port}in{ports}:if{port}in{cv}.parameters:{var}[{port}]={cv}.parameters[{port}].replace('\\n','').replace('N','-')"
+        ok = any(cz(st) == w for st in lu.body)
+        rep.ob('C18.extract', f'{var} collects the parameters of the {ports} ports', ok)
+        if not ok:
+            rep.violate('C18.extract', mod, f, f'{var} collection', f'load_unload: `{var}` must collect call.parameters[p] (line breaks removed, N -> -) for every p in {ports}', node=lu)
 
 
 def twins(rep, mod):
